@@ -50,7 +50,7 @@ type runLevelOutcome struct {
 	Probe      int
 	SrcClose   int
 	PortFree   string // non-empty: the source port of the live run could be bound by someone else
-	WriteCalls int // WriteTo calls including faulted ones
+	WriteCalls int    // WriteTo calls including faulted ones
 	ReadCalls  int
 	SnkClose   int
 	UseAfter   []string
